@@ -45,7 +45,9 @@ RULE = ('workbooks generated from one PRNG: 3-8 sites of every declared type (RO
         'unknown transceivers/modes, missing spacing, loose/strict routes naming ROADM, ILA and FUSED sites, unknown sites, '
         'transceivers, several disjointness entries, and (45 % of the service sheets) clean rows whose \'disjoint from\' '
         'entries interlock: cycles r1/r2 r2/r3 r3/r1, chains of 3-5 rows, a/b c/d then a/c, rows listing several ids, '
-        'forward references, symmetric duplicates; plus the workbooks shipped with GNPy (.xls and .xlsx). A case is '
+        'forward references, symmetric duplicates, and (30 %) 3-6 rows routed by city name through the same in-line sites in '
+        'both directions and repeatedly (every row must convert as when it is alone, and towards its own next site); '
+        'plus the workbooks shipped with GNPy (.xls and .xlsx). A case is '
         'non-trivial when the workbook has an ILA/FUSED site or an Eqpt/Roadms row or violates a rule or has services; '
         'distinct = distinct canonical JSON of the case')
 MODEL_SCOPE = ('modelled: Node/Link/Eqpt/Roadm row construction with their defaulting rules, the rejections of parse_excel '
@@ -496,8 +498,68 @@ def gen_interlocked_services(rng, cities, types):
     return rows
 
 
-def gen_services(rng, cities, types):
-    if rng.random() < 0.45:
+def gen_routed_services(rng, tab, cities, types):
+    """3-6 rows whose 'routing: path' names, by city, every ROADM and in-line amplifier site of an actual route between
+    two ROADM sites: the same in-line sites are crossed by several rows, in both directions and repeatedly.  Each row keeps
+    its planned route ('_path', not a sheet column) so that the monitor knows which neighbour every site has to face.
+    None when the table has no route through an in-line site."""
+    adj = {c: [] for c in cities}
+    for ln in tab['links']:
+        adj[ln['a']].append(ln['z'])
+        adj[ln['z']].append(ln['a'])
+    typ = dict(zip(cities, types))
+    roadm_c = [c for c in cities if typ[c] == 'ROADM']
+
+    def path(s, d):
+        prev = {s: None}
+        todo = [s]
+        while todo:
+            x = todo.pop(0)
+            if x == d:
+                break
+            for y in adj[x]:
+                if y not in prev:
+                    prev[y] = x
+                    todo.append(y)
+        if d not in prev:
+            return None
+        out = [d]
+        while prev[out[-1]] is not None:
+            out.append(prev[out[-1]])
+        return out[::-1]
+    cands = []
+    for s in roadm_c:
+        for d in roadm_c:
+            if s != d:
+                pth = path(s, d)
+                if pth and any(typ[c] == 'ILA' for c in pth[1:-1]):
+                    cands.append(pth)
+    if not cands:
+        return None
+    base = rng.choice(cands)
+    plans = [base, base[::-1], rng.choice([base, base[::-1]])]
+    for _ in range(rng.randint(0, 3)):
+        plans.append(rng.choice(cands + [base, base[::-1]]))
+    rng.shuffle(plans)
+    rows = []
+    for i, pth in enumerate(plans):
+        listed = [c for c in pth[1:-1] if typ[c] in ('ILA', 'ROADM')]
+        if rng.random() < 0.3:
+            listed = [pth[0]] + listed          # some users repeat the end points in the path (by site name)
+        rows.append({'request_id': f'r{i}', 'source': pth[0], 'destination': pth[-1], 'trx_type': 'Voyager',
+                     'mode': rng.choice([None, 'mode 1']), 'spacing': 50, 'power': rng.choice([None, 0]), 'nb_channel': None,
+                     'path_bandwidth': 100, 'nodes_list': ' | '.join(listed) if listed else None,
+                     'is_loose': rng.choice(['yes', 'no', None]), '_path': pth})
+    return rows
+
+
+def gen_services(rng, cities, types, tab=None):
+    c = rng.random()
+    if c < 0.3 and tab is not None:
+        rows = gen_routed_services(rng, tab, cities, types)
+        if rows:
+            return rows
+    if c < 0.6:
         return gen_interlocked_services(rng, cities, types)
     roadm_c = [c for c, t in zip(cities, types) if t == 'ROADM']
     rows = []
@@ -551,7 +613,7 @@ def gen(rng, tier, widen=False):
             case['violation'] = v
             return case
     if rng.random() < 0.6 and any(t == 'ROADM' for t in types):
-        tab['services'] = gen_services(rng, cities, types)
+        tab['services'] = gen_services(rng, cities, types, tab)
         case['bidir'] = rng.random() < 0.3
     return case
 
@@ -973,6 +1035,7 @@ def run_services(res, case, drv, path, net):
             for h in r.get('explicit-route-objects', {}).get('route-object-include-exclude', []):
                 if h['num-unnum-hop']['node-id'] not in uids:
                     res.fail(f'route: request {r["request-id"]} names {h["num-unnum-hop"]["node-id"]!r}, which is not in the network')
+        monitor_routes(res, tab, path, net, eq, bidir, data)
         # every route entry that names a ROADM site of the converted network must be in the request as that ROADM
         roadm_sites = {c for c in cities if f'roadm {c}' in uids}
         if len(data['path-request']) == len(tab['services']):
@@ -986,6 +1049,73 @@ def run_services(res, case, drv, path, net):
                         res.fail(f'route: request {r["request-id"]} lists the ROADM site {c!r} but the request does not contain '
                                  f"'roadm {c}' (route in the request: {got})",
                                  cls='unlisted', promoted_site=promoted)
+
+
+def monitor_routes(res, tab, path, net, eq, bidir, data):
+    """(1) every row converts exactly as when it is alone in the sheet; (2) a route entry naming an in-line amplifier site is
+    replaced by the amplifier of that site that feeds the next site of THAT row's planned route"""
+    import contextlib
+    import io
+    from gnpy.tools.service_sheet import correct_xls_route_list, Request_element, Request
+    if len(data['path-request']) != len(tab['services']):
+        return
+    succ = {}
+    for u, v in net.edges():
+        succ.setdefault(u.uid, []).append(v.uid)
+    kinds = {n.uid: type(n).__name__ for n in net.nodes()}
+    uids = set(kinds)
+    deg = {}
+    for ln in tab['links']:
+        deg[ln['a']] = deg.get(ln['a'], 0) + 1
+        deg[ln['z']] = deg.get(ln['z'], 0) + 1
+    site_type = {}
+    for n in tab['nodes']:
+        t = n.get('node_type') if n.get('node_type') in ('ROADM', 'ILA', 'FUSED') else 'ILA'
+        site_type[n['city']] = 'ROADM' if (t == 'ILA' and deg.get(n['city']) != 2) else t
+    for s_row, r in zip(tab['services'], data['path-request']):
+        got = [h['num-unnum-hop']['node-id'] for h in r.get('explicit-route-objects', {}).get('route-object-include-exclude', [])]
+        kw = {f: cell(s_row.get(f)) for _, f in SERVICE_COLS}
+        try:
+            with contextlib.redirect_stdout(io.StringIO()):
+                alone = correct_xls_route_list(Path(path), net, [Request_element(Request(**kw), eq, bidir)])[0].nodes_list
+        except Exception as e:  # noqa: BLE001
+            res.fail(f'route: row {kw["request_id"]} converts in the sheet but is refused when it is alone ({err_kind(e)})')
+            continue
+        res.stats['rows_compared_with_alone_conversion'] += 1
+        if alone != got:
+            res.fail(f'route: row {kw["request_id"]} ({kw["nodes_list"]!r}) gives the route {got} in this sheet but {alone} when it '
+                     'is the only row')
+        pth = s_row.get('_path')
+        if not pth:
+            continue
+        res.stats['planned_routes'] += 1
+        for k, c in enumerate(pth[1:-1], start=1):
+            amps_here = [u for u in kinds if kinds[u] == 'Edfa' and (u.endswith(f' in {c}') or f' in {c} to ' in u)]
+            mine = [u for u in got if u in amps_here]
+            if not mine or len(amps_here) != 2:
+                # the direction can only be chosen when the site has an amplifier in each direction (an Eqpt side typed
+                # 'fused' leaves a single one)
+                continue
+            res.stats['ila_route_entries_resolved'] += 1
+            want = next((x for x in pth[k + 1:] if site_type.get(x) in ('ILA', 'ROADM')), None)
+            for u in mine:
+                nxt, hops = u, 0
+                while hops < 60:
+                    hops += 1
+                    ss = succ.get(nxt, [])
+                    if not ss:
+                        break
+                    nxt = ss[0]
+                    if kinds.get(nxt) in ('Fiber', 'RamanFiber', 'Fused'):
+                        continue
+                    break
+                # the next amplifier/ROADM downstream must belong to a later site of this row's route (the very next site
+                # may have a Fused element in this direction)
+                at_want = any(nxt == f'roadm {w}' or nxt.endswith(f' in {w}') or f' in {w} to ' in nxt or f'roadm {w}_' in nxt
+                              for w in pth[k + 1:])
+                if not at_want:
+                    res.fail(f'route: row {kw["request_id"]} crosses {c} towards {want}, but its route entry was replaced by {u!r}, '
+                             f'whose signal goes on to {nxt!r}')
 
 
 def monitor_request(res, kw, impl, bidir):
